@@ -55,6 +55,7 @@ __all__ = [
     "write_packed_refs",
 ]
 
+import errno
 import os
 import sys
 import types
@@ -916,7 +917,14 @@ class DiskRefsContainer(RefsContainer):
         refspath = os.path.join(path, base.rstrip(b"/"))
         prefix_len = len(os.path.join(path, b""))
 
-        for root, dirs, files in os.walk(refspath):
+        def walk_error(exc: OSError) -> None:
+            # A directory removed while we list it is part of normal
+            # operation; any other failure to list means the refs below it
+            # are unknown, not absent.
+            if not isinstance(exc, (FileNotFoundError, NotADirectoryError)):
+                raise exc
+
+        for root, dirs, files in os.walk(refspath, onerror=walk_error):
             directory = root[prefix_len:]
             if os.path.sep != "/":
                 directory = directory.replace(os.fsencode(os.path.sep), b"/")
@@ -1249,10 +1257,19 @@ class DiskRefsContainer(RefsContainer):
                     f.seek(0)
                     line = f.readline().rstrip(b"\r\n")
                     return line
-        except (OSError, UnicodeError):
+        except OSError as e:
             # don't assume anything specific about the error; in
             # particular, invalid or forbidden paths can raise weird
-            # errors depending on the specific operating system
+            # errors depending on the specific operating system.  But a
+            # failing read says nothing about whether the ref exists:
+            # reporting it as absent would let a garbage collection running
+            # at that moment prune everything only this ref keeps alive.
+            if e.errno in (errno.EIO, errno.EMFILE, errno.ENFILE, errno.ENOMEM) or (
+                e.errno == errno.EACCES and os.name != "nt"
+            ):
+                raise
+            return None
+        except UnicodeError:
             return None
 
     def _remove_packed_ref(self, name: Ref) -> None:
